@@ -22,6 +22,13 @@ type messageSetReader struct {
 	// This is used to detect truncation of the response.
 	lengthRemain int
 
+	// Set when a record batch with a record count of zero was skipped: kafka
+	// retains the header of a batch whose records were all removed by
+	// compaction. emptyBatchLastOffset is the last offset covered by the most
+	// recent of those batches.
+	skippedEmptyBatch    bool
+	emptyBatchLastOffset int64
+
 	decompressed *bytes.Buffer
 }
 
@@ -404,6 +411,29 @@ func (r *messageSetReader) runFunc(rbFunc readBytesFunc) (err error) {
 }
 
 func (r *messageSetReader) readHeader() (err error) {
+	for {
+		if err = r.readNextHeader(); err != nil || r.count > 0 || r.header.magic != 2 {
+			return
+		}
+		// The batch holds no record (they were all removed by compaction),
+		// there is nothing to read in it but the offsets it covers have to be
+		// skipped, otherwise the bytes that follow would be read as records.
+		r.skippedEmptyBatch = true
+		r.emptyBatchLastOffset = r.header.firstOffset + int64(r.header.v2.lastOffsetDelta)
+		if r.lengthRemain > 0 {
+			if err = r.discardN(r.lengthRemain); err != nil {
+				return
+			}
+		}
+		r.lengthRemain = 0
+		if r.remain == 0 {
+			err = errShortRead
+			return
+		}
+	}
+}
+
+func (r *messageSetReader) readNextHeader() (err error) {
 	if r.count > 0 {
 		// currently reading a set of messages, no need to read a header until they are exhausted.
 		return
